@@ -1044,3 +1044,41 @@ CUSTOM['pane.classes:data_paths.bounded'] = _data_path_instances
 
 TYPES.extend([t.Dict[t.Any, str], t.Dict[t.Any, t.Any]])
 VALUES.extend([{1: 'a', 2.5: 'b'}, {0: 'off', 'max': 'full'}, {1: 'a', fractions.Fraction(1, 2): 'b'}, {'n': 5, 'm': [1, 2]}, [5, 'x', [1]]])
+
+
+# ---- C10: LRU mode of KeyCache, bounded domain of operation sequences ---------------------------------------------------
+def _lru_drive(maxsize, ops):
+    """Run `ops` against a real KeyCache(maxsize); per step: (result, inner called?, cached keys, keys along the recency list)."""
+    import importlib
+    um = importlib.import_module('pane.util')
+    calls = []
+
+    def inner(x):
+        calls.append(x)
+        return ('r', x)
+    kc = um.KeyCache(inner, lambda x: x, maxsize)
+    out = []
+    for x in ops:
+        n = len(calls)
+        r = kc(x)
+        walk, link, steps = [], kc._root[um.NEXT], 0
+        while link is not kc._root and steps < 64:
+            # every link is the one the table holds for its key, and the back pointers mirror the forward ones
+            ok = kc.cache.get(link[um.KEY]) is link and link[um.NEXT][um.PREV] is link and link[um.PREV][um.NEXT] is link
+            walk.append(link[um.KEY] if ok else ('broken', link[um.KEY]))
+            link = link[um.NEXT]; steps += 1
+        out.append((r, len(calls) > n, list(kc.cache), walk))
+    return out
+
+
+def _lru_instances(m):
+    import itertools
+    out = []
+    for ms in (0, 1, 2, 3):
+        for n in range(0, 6):
+            for ops in itertools.product(range(4), repeat=n):
+                out.append((_lru_drive, ['maxsize', 'ops'], (ms, ops), f'KeyCache(maxsize={ms}) on {ops}'))
+    return out
+
+
+CUSTOM['pane.util:KeyCache.__call__.lru.bounded'] = _lru_instances
